@@ -23,6 +23,7 @@ func checkBuildTrace(tr []pev, nS, nE int) string {
 	se := map[int]int{}
 	nse := 0
 	loaded := map[string]bool{}
+	resolved := map[string]bool{}
 	endNext := 0     // index of the next on-end callback expected to begin
 	endOpen := false // an on-end callback has begun and not ended
 	endStopped := false
@@ -46,6 +47,15 @@ func checkBuildTrace(tr []pev, nS, nE int) string {
 			}
 			if endSeen {
 				return fmt.Sprintf("%s callback ran after on-end callbacks began", e.Kind)
+			}
+			if e.Kind == "res" && e.Imp != "" {
+				if !loaded[e.Imp] {
+					return fmt.Sprintf("import %q of file %q was resolved before that file was loaded", e.Key, e.Imp)
+				}
+				if resolved[e.Imp+"\x00"+e.Key] {
+					return fmt.Sprintf("on-resolve ran twice for the same import %q of file %q (per-file resolver cache)", e.Key, e.Imp)
+				}
+				resolved[e.Imp+"\x00"+e.Key] = true
 			}
 			if e.Kind == "load" {
 				if loaded[e.Mod] {
@@ -109,6 +119,7 @@ func coqTraces(pt []pev, nS, nE int) []string {
 	sort.Ints(ids)
 	for _, b := range ids {
 		num := map[string]int{}
+		keys := map[string]int{}
 		var items []string
 		for _, e := range byB[b] {
 			switch e.Kind {
@@ -117,7 +128,18 @@ func coqTraces(pt []pev, nS, nE int) []string {
 			case "se":
 				items = append(items, fmt.Sprintf("PSE %d", e.I))
 			case "res":
-				items = append(items, "PRes")
+				if e.Imp == "" {
+					items = append(items, "PRes")
+				} else {
+					if _, ok := num[e.Imp]; !ok {
+						num[e.Imp] = len(num) // never loaded: the Coq checker rejects it
+					}
+					k := e.Imp + "\x00" + e.Key
+					if _, ok := keys[k]; !ok {
+						keys[k] = len(keys)
+					}
+					items = append(items, fmt.Sprintf("PResK %d %d", num[e.Imp], keys[k]))
+				}
 			case "load":
 				if _, ok := num[e.Mod]; !ok {
 					num[e.Mod] = len(num)
